@@ -16,7 +16,8 @@ class Expected:
     __slots__ = ("data", "errors", "resolved", "invoked", "crash",
                  "positions", "root_keys", "merged_groups", "frag_applied",
                  "frag_rejected", "max_list", "root_spans", "arg_errors",
-                 "uncalled", "divergent_groups", "enum_fields")
+                 "uncalled", "divergent_groups", "enum_fields", "gen_sites",
+                 "lazy_failed")
 
     def __init__(self):
         self.data = None
@@ -34,6 +35,10 @@ class Expected:
         self.uncalled = set()  # resolved paths whose resolver is not called
         self.divergent_groups = 0  # same first node, other merged group
         self.enum_fields = []  # paths of (non-list) enum-typed fields
+        # list-of-object fields whose value is produced lazily (a generator)
+        # and holds at least one item: candidates for "fails mid-iteration"
+        self.gen_sites = []
+        self.lazy_failed = []  # ... and those where that fault is placed
 
 
 def serialize_leaf(base, v):
@@ -163,7 +168,9 @@ class Model:
             self.seq += 1
             seq = self.seq
         fault = self.world.faults.get(path)
-        if fault in ("err", "errx", "errs", "errpp", "errsh"):
+        if fault == "generr":
+            exp.lazy_failed.append(path)
+        if fault in ("err", "errx", "errs", "errpp", "errsh", "generr"):
             exp.errors.append({
                 "path": path, "kind": "err",
                 "message": "E@shared" if fault == "errsh"
@@ -186,6 +193,11 @@ class Model:
         raw = self.world.field_value(
             obj, tname, node.name, effective_kwargs(self.spec, tname, node),
             path, seq)
+        if self.spec.behaviours.get((tname, node.name)) == "gen" and \
+                isinstance(raw, list) and raw and \
+                self.spec.is_composite(named(fdef.type)) and \
+                any(x is not None for x in raw):
+            exp.gen_sites.append(path)
         return self.complete(fdef.type, raw, path, nodes)
 
     # -- CompleteValue ------------------------------------------------------
